@@ -362,6 +362,10 @@ def specs(tier, factory="mk"):
 
 def run(tier, rep, only=None):
     sp = specs(tier)
+    if rep.prop == "C02":
+        from props import c02r
+
+        sp = sp + c02r.specs(tier)  # the rendering half: one dataclass field per property, key maps, required-ness, kinds
     if only:
         sp = [s for s in sp if only in explore.build(s).name]
     rep.bounds = {"templates": sorted(TEMPLATES), "schemas": "2-3 named schemas", "name_lengths": "<=2 quick / <=3 thorough (+ suffix tokens Item/Property/Children)",
@@ -378,6 +382,14 @@ def run(tier, rep, only=None):
 def replay(path):
     v = json.load(open(path))["violation"]
     parts = v["obligation"].split("/")
+    if parts[0] == "render_fidelity":
+        from props import c02r
+
+        ob = c02r.replay_ob(v)
+        r = ob.run_real(v["inputs"])
+        why = ob.verdict(v["inputs"], r)
+        print("replay %s inputs=%r -> %s" % (v["obligation"], v["inputs"], "holds" if why is None else why))
+        return 0 if why is None else 1
     ob = Fidelity(parts[1], [1] * TEMPLATES[parts[1]][0])
     r = ob.run_real(v["inputs"])
     ok, why = ob.verdict(v["inputs"], r)
